@@ -561,6 +561,10 @@ func (pa *path) doDescribe(req defs.PathDescribeReq) {
 func (pa *path) doRemovePublisher(req defs.PathRemovePublisherReq) {
 	if pa.source == req.Author {
 		pa.executeRemovePublisher()
+
+		if pa.conf.HasOnDemandPublisher() && pa.onDemandPublisherState != pathOnDemandStateInitial {
+			pa.onDemandPublisherStop("publisher has left")
+		}
 	}
 	close(req.Res)
 }
